@@ -93,6 +93,22 @@ CLAIMS['C07'] = {
     'design': 'DESIGN.md section 5 C07',
 }
 
+CLAIMS['C11'] = {
+    'text': 'Soundness of analyze() is split into per-rule premises, which are PROVED on the real rule bodies, and the graph traversal work(), which is only BOUNDED-checked. '
+            'Premises: the consumption expression, the left-call accumulators and the back-references the analysis uses for a rule are read on every run from the REAL analyze_traits '
+            '(a generated C++ program folds analyze_traits<Rule> exactly as work() does, opaque sub-rules staying symbolic bits g_c[i]); against them every rule under contract proves '
+            'P1 "traits say consumes-on-success => a successful match consumed > 0" (all unit rules, string/istring/bytes/eol, integer rules, raw_string, seq, sor, opt, star, plus, at, not_at, until, rep, rep_opt, rep_min_max, '
+            'if_then_else, must, if_must, try_catch_*, action/apply/if_apply/enable/disable/control/state), '
+            'P3a "a sub-rule is called at the entry position only if the analysis visits it without accumulated consumption" and '
+            'P3b "where the traits carry a back-reference, two calls of one sub-rule at the same position happen only if the back-reference is entered without consumption; without back-reference the number of calls is bounded by the documented count". '
+            'Traversal: BOUNDED (not proved): the real analyze_cycles_impl is run natively on all 141404 abstract grammars with <= 3 names and <= 2 sub-rules per rule and compared with an independent left-call-graph oracle (no unsound verdict; found defect D12, fixed).',
+    'note': 'work() uses std::map/std::set/std::string_view and recursion over a cyclic graph: outside the lowering and CBMC loop contracts, hence the bounded native stand-in (labelled bounded in the evidence, not counted in obligations/discharged). '
+            'The lift from premises + traversal to whole grammars is an induction on paper (DESIGN.md). Rules without analyze_traits (strict, star_strict) cannot be analysed at all (compile error), rematch, rep_one_min_max, predicates.hpp and list/pad aliases are not under contract. '
+            'Termination of counted loops is by their template bound (call-count clause), not by a decreases clause.',
+    'design': 'DESIGN.md section 5 C11 and section 11',
+    'technique': 'CBMC code contracts on the lowered rule bodies against trait expressions generated from the real analyze_traits; bounded exhaustive native enumeration for analyze_cycles_impl::work()',
+}
+
 NOT_APPLICABLE = {
     'C14': 'language equality between a recursive grammar and RFC 8259 is not a per-function contract; json.hpp contains no function bodies (DESIGN.md section 5, C14)',
 }
